@@ -285,6 +285,8 @@ def run(tier, seed):
     # concrete failing input
     gen_tie.gate(chk, ['cancel_reason_rank', 'is_exceeded', 'event_to_cancel_reason', 'to_request', 'failed_count',
                        'runner_settings'], gate)
+    # glue code (DESIGN 11.7, third round): the Cancel arm of DispatcherContext::run and broadcast_request
+    gen_tie.gate(chk, ['run_cancel_broadcasts', 'broadcast_request'], gate, family="glue")
     # DESIGN 11.2e: the OtherCancel arm of every wait loop of a unit is regenerated from the source and proved equal
     # to the model's (ignored while running / terminating / draining, ends the retry delay)
     import units_e2e
